@@ -242,6 +242,8 @@ def check_legacy(case):
     n = tuple(lat.n)
     arr = gen.make_array(case["seed"], (*n, case["k"]), "int") + 0.25
     arr[..., 0] = np.arange(int(np.prod(n))).reshape(n) + 0.5
+    # either sign in the leading column, too (a data line of the old layout may start with '-')
+    arr[..., 0] *= np.where(np.random.default_rng(case["seed"] + 1).integers(0, 2, size=n) == 1, -1.0, 1.0)
     centres = [np.array([float(lat.vertex(d, i) + lat.cell[d] / 2) for i in range(n[d])]) for d in range(3)]
     with tempfile.TemporaryDirectory() as tmp:
         path = os.path.join(tmp, "old.vtk")
